@@ -50,13 +50,13 @@ def run(tier="quick", seed=0, tag="C02#native"):
         cases += 1
         A_b = bytes(c.get_public_key_bytes())
         if A_b != PAD(pow(5, c.a, acc_N)):
-            fail("public-value", what=what, got=A_b)
+            fail("public-value", case=what, got=A_b)
         if bytes(c.get_session_key_bytes()) != acc.K:
-            fail("session-key", what=what, got=bytes(c.get_session_key_bytes()), want=acc.K)
+            fail("session-key", case=what, got=bytes(c.get_session_key_bytes()), want=acc.K)
         if bytes(c.get_proof_bytes()) != acc.M1:
-            fail("client-proof", what=what, got=bytes(c.get_proof_bytes()), want=acc.M1)
+            fail("client-proof", case=what, got=bytes(c.get_proof_bytes()), want=acc.M1)
         if not c.verify_servers_proof_bytes(acc.M2):
-            fail("rejects-correct-server-proof", what=what, M2=acc.M2)
+            fail("rejects-correct-server-proof", case=what, M2=acc.M2)
 
     from harness.hap_accessory import N as acc_N
 
